@@ -52,7 +52,22 @@ def seeded():
         c = json.load(open(cj))
         patch = open(os.path.join(d, "patch.diff")).read() if os.path.exists(os.path.join(d, "patch.diff")) else ""
         files = sorted(set(re.findall(r"^\+\+\+ b/(\S+)", patch, flags=re.M)))
-        verdicts = "; ".join("%s: %s" % (x["check"], ("CAUGHT" + (" (no-failing-input-found)" if "no-failing-input-found" in x["lines"] and x["lines"].count("VIOLATION") == x["lines"].count("no-failing-input-found") else "")) if x["exit"] == 1 else "missed") for x in c["checks"])
+        vj = os.path.join(d, "verdict.json")
+        if os.path.exists(vj):
+            # the final re-run on a fresh worktree of HEAD + the stored patch (seeded/recheck.sh) supersedes the first verdict
+            v = json.load(open(vj))
+            if not v.get("applies", True):
+                verdicts = "patch no longer applies on %s" % v.get("head")
+            else:
+                def one(x):
+                    if x["exit"] != 1:
+                        return "%s: missed (exit %d)" % (x["check"], x["exit"])
+                    if x.get("harness_build_broken"):
+                        return "%s: harness no longer builds (tie broken, not a detection of the behaviour)" % x["check"]
+                    return "%s: CAUGHT%s" % (x["check"], "" if x.get("with_failing_input", 0) > 0 else " (no-failing-input-found)")
+                verdicts = "; ".join(one(x) for x in v["checks"]) + " @%s" % v.get("head")
+        else:
+            verdicts = "; ".join("%s: %s" % (x["check"], ("CAUGHT" + (" (no-failing-input-found)" if "no-failing-input-found" in x["lines"] and x["lines"].count("VIOLATION") == x["lines"].count("no-failing-input-found") else "")) if x["exit"] == 1 else "missed") for x in c["checks"])
         rows.append("| %s | %s | %s | %s | %s / %s | %s |" % (
             c["seed"], c["property"], ", ".join(files), "pass" if c["existing_tests_exit_with_change"] == 0 else "FAIL",
             "fails" if c["demo_exit_with_change"] != 0 else "passes(!)", "passes" if c["demo_exit_without_change"] == 0 else "fails(!)", verdicts))
